@@ -55,6 +55,7 @@ def run(ctx):
     s5(ctx, taint, off)
     s2h(ctx)
     s7(ctx, taint, off)
+    s9(ctx)
 
 
 # ---------------------------------------------------------------------------------- taint
@@ -715,3 +716,82 @@ def s7(ctx, taint, off):
     ctx.info['S7_unsigned_differences'] = nu
     ctx.floor('S7', n, 90)
     ctx.floor('S7', nu, 45)
+
+
+# ---------------------------------------------------------------------------------- S9
+def s9(ctx):
+    """dangling buffers of the packet context: the decoders keep (pointer, length) pairs F / Flen in
+    the context that later stages read and PacketContextRelease frees.  After `delete [] ctx.F` the
+    function must not return before F is re-allocated or Flen is set to 0 -- otherwise a later stage
+    reads freed memory and the release frees it twice."""
+    prog = ctx.prog
+    n = 0
+    for k, f in prog.funcs.items():
+        if not f.get('body') or 'RFC4880' not in f['file']:
+            continue
+        short = f['q'].split('::')[-1]
+        if not DECODER_RE.search(short):
+            continue
+        dels = [e for e in walk(f['body']) if e.get('k') == 'delete' and isinstance(e['a'][0], dict) and e['a'][0].get('k') == 'mem']
+        if not dels:
+            continue
+        a = ctx.analysis(f)
+        T = a.T
+        byid = {x.id: x for x in a.cfg.rpo}
+        for nid, node in byid.items():
+            if node.kind != 'stmt':
+                continue
+            for e in walk(node.e):
+                if not (e.get('k') == 'delete' and isinstance(e['a'][0], dict) and e['a'][0].get('k') == 'mem'):
+                    continue
+                fld = e['a'][0]['n']
+                base = a.loc(e['a'][0].get('o'), a.instate[nid]) if nid in a.instate else None
+                if base is None:
+                    continue
+                ploc = ('f', base, fld)
+                lloc = ('f', base, fld + 'len')
+                n += 1
+                # walk the paths from the delete that do not re-allocate the pointer, carrying the value
+                # last written to the length field: a path is repaired when 0 is written, or when a
+                # branch edge establishes that the value written is not positive; an exit reached
+                # unrepaired leaves a dangling (pointer, length) pair behind
+                repair = set(n2 for n2, ev in a.all_events('write') if ev[1] == ploc and n2 != nid)
+                lwrites = {}
+                for n2, ev in a.all_events('write'):
+                    if ev[1] == lloc:
+                        lwrites[n2] = ev[2]
+                v0 = a.read(lloc, a.instate[nid])
+
+                def is_zero_on_edge(nidx, i, v):
+                    eo = a.edge_out.get((nidx, i))
+                    if eo is None or v is None:
+                        return False
+                    z = T.int(0)
+                    return any(x in eo.facts for x in (a.rel('<=', v, z), a.rel('==', v, z), a.rel('<', v, T.int(1))))
+                seen = set()
+                st = [(x, v0) for x in node.succ]
+                leak = None
+                while st:
+                    x, v = st.pop()
+                    if (x.id, v) in seen or x.id in repair:
+                        continue
+                    seen.add((x.id, v))
+                    if x.id in lwrites:
+                        v = lwrites[x.id]
+                        if T.is_int(v, 0):
+                            continue
+                    if x.kind == 'exit':
+                        leak = x
+                        break
+                    for i, y in enumerate(x.succ):
+                        if x.kind == 'branch' and is_zero_on_edge(x.id, i, v):
+                            continue
+                        st.append((y, v))
+                key = 'S9:%s:%s' % (f['q'], fld)
+                if leak is None:
+                    ctx.ok('S9', key, 'after delete [] the buffer %s is re-allocated or its length reset before the decoder returns' % fld, f, line=node.line)
+                else:
+                    ctx.bad('S9', key, 'the decoder can return (line %d) with %s freed but neither re-allocated nor %slen reset to 0: later stages read the '
+                            'freed buffer and the context release frees it again' % (leak.line, fld, fld), f, line=node.line)
+    ctx.info['S9_sites'] = n
+    ctx.floor('S9', n, 2)
